@@ -477,6 +477,13 @@ def check_retire(ctx):
     R.dom(ctx, inst, body, ret, pushes, "retire_extent precedes queuing the extent for marker writes", a_desc="Record::retire_extent")
 
 
+def check_journal_position(ctx):
+    """an acknowledged batch stays safe against a later torn journal write only if every new journal record goes to the slot
+    that does not hold the newest valid one, across restarts too (shared with C04.position)"""
+    from rules import C04
+    C04.check_position(ctx, "C02.journal-position")
+
+
 def check_successor(ctx):
     """Record::successor_is_durable_or_deleted is the licence to destroy an acknowledged generation: its `true` must mean
     a durable (sector > 0) or deleted (refcount == 0, no successor) tail was actually reached, and the memo flag
@@ -704,4 +711,5 @@ def check(ctx):
     check_ack(ctx)
     check_retire(ctx)
     check_successor(ctx)
+    check_journal_position(ctx)
     check_drop(ctx)
